@@ -21,7 +21,8 @@ from funtracks.user_actions import (  # noqa: E402
 )
 
 UNKNOWN = 99  # a node id that never exists
-WATCHDOG_S = 3.0
+WATCHDOG_S = 4.0       # CPU seconds (a real non-terminating loop burns CPU)
+WATCHDOG_WALL_S = 90.0  # wall-clock backstop (blocked forever without burning CPU)
 
 
 class Hang(BaseException):
@@ -32,15 +33,23 @@ def _on_alarm(signum, frame):  # noqa: ARG001
     raise Hang()
 
 
-def with_watchdog(fn, seconds=WATCHDOG_S):
-    """Run fn() under an interval timer; Hang is raised if it does not return."""
-    old = signal.signal(signal.SIGALRM, _on_alarm)
-    signal.setitimer(signal.ITIMER_REAL, seconds)
+def with_watchdog(fn, seconds=None, wall=None):
+    """Run fn(); Hang is raised if it uses more than `seconds` of *CPU time* (ITIMER_PROF, so
+    a worker that is merely descheduled on a loaded machine is not mistaken for a hang) or
+    more than `wall` seconds of wall-clock time (default max(90, 20*seconds))."""
+    seconds = WATCHDOG_S if seconds is None else seconds
+    wall = wall if wall is not None else max(WATCHDOG_WALL_S, 20 * seconds)
+    old_p = signal.signal(signal.SIGPROF, _on_alarm)
+    old_a = signal.signal(signal.SIGALRM, _on_alarm)
+    signal.setitimer(signal.ITIMER_PROF, seconds)
+    signal.setitimer(signal.ITIMER_REAL, wall)
     try:
         return fn()
     finally:
+        signal.setitimer(signal.ITIMER_PROF, 0)
         signal.setitimer(signal.ITIMER_REAL, 0)
-        signal.signal(signal.SIGALRM, old)
+        signal.signal(signal.SIGPROF, old_p)
+        signal.signal(signal.SIGALRM, old_a)
 
 
 # ---------------------------------------------------------------------------
